@@ -351,6 +351,16 @@ type FlagMapCheck struct {
 	Where            string
 }
 
+// NoGlobalsCheck: the functions (and what they call inside the package) touch no package-level
+// variable - they are functions of their arguments alone (no shared mutable state).
+type NoGlobalsCheck struct {
+	Pkg   string
+	Funcs []string
+	Allow []string
+	Props []string
+	Where string
+}
+
 // RecvOnlyCheck: in package Pkg, receives from the channel field Chan occur only in Funcs.
 type RecvOnlyCheck struct {
 	Pkg, Chan string
@@ -372,6 +382,7 @@ type SpecDB struct {
 	RecvOnly   []*RecvOnlyCheck
 	MethodSets []*MethodSetCheck
 	FlagMaps   []*FlagMapCheck
+	NoGlobals  []*NoGlobalsCheck
 	Contracts  map[string]*Contract
 	Funcs      map[string]*SpecFunc
 	Records    map[string]*Record
@@ -386,7 +397,7 @@ func NewSpecDB() *SpecDB {
 }
 
 var clauseKW = map[string]bool{"fresh": true, "requires": true, "ensures": true, "modifies": true, "crash_inv": true, "loop": true, "observe": true, "param": true, "trusted": true, "nopanic": true, "pure": true, "noinline": true, "inline": true, "property": true, "assert": true, "assumes": true}
-var topKW = map[string]bool{"distinct": true, "recvonly": true, "methodset": true, "flagmap": true, "func": true, "package": true, "record": true, "spec": true, "model": true, "pred": true, "axiom": true}
+var topKW = map[string]bool{"distinct": true, "recvonly": true, "methodset": true, "flagmap": true, "noglobals": true, "func": true, "package": true, "record": true, "spec": true, "model": true, "pred": true, "axiom": true}
 
 // LoadFile parses one contract file. pkgPath is the import path the file's functions live in
 // (overridden by `//@ package` lines).
@@ -543,6 +554,25 @@ func (db *SpecDB) LoadFile(file, pkgPath string) error {
 				}
 			}
 			db.RecvOnly = append(db.RecvOnly, rc)
+			cur = nil
+		case "noglobals":
+			// noglobals T.M, F, ... [allow g1, g2] property Cxx
+			ng := &NoGlobalsCheck{Pkg: pkgPath, Where: where}
+			mode := "funcs"
+			for _, w := range fs[1:] {
+				w = strings.TrimSuffix(w, ",")
+				switch {
+				case w == "allow" || w == "property":
+					mode = w
+				case mode == "funcs":
+					ng.Funcs = append(ng.Funcs, w)
+				case mode == "allow":
+					ng.Allow = append(ng.Allow, w)
+				case mode == "property":
+					ng.Props = append(ng.Props, w)
+				}
+			}
+			db.NoGlobals = append(db.NoGlobals, ng)
 			cur = nil
 		case "flagmap":
 			// flagmap Config in AddFlags, AddGlobalFlags strip "rollkit." exempt home, x.y property Cxx
